@@ -142,7 +142,8 @@ def run_xh(prop, jobs, tier, out=None, verbose=True, max_rounds=6):
             if key not in traced_keys and len(traced_keys) < 32 and tw.get("args") is not None:
                 traced_keys.add(key)
                 to_trace.append(spec_of(job, tw["args"]))
-        else:
+        elif r["verdict"] != "REFUTED":
+            # (a refuted main job proves reachability by its own replayed counterexample)
             out.harness_errors.append("vacuity twin of %s not refuted: %s %s" % (job.label(), tw["verdict"],
                                                                                  (tw.get("detail") or "")[-400:]))
             continue
